@@ -2,6 +2,7 @@ import AcraModel.Keystore.CrashLemmas
 import AcraModel.Keystore.RefineCrash
 import AcraModel.Keystore.ImportLemmas
 import AcraModel.Keystore.RotateTool
+import AcraModel.Keystore.SysFileLemmas
 /-!
 # C08 — a crash or I/O failure during a keystore write never loses or corrupts keys
 
@@ -333,6 +334,27 @@ theorem rotate_tool_order_counterexample :
     (let cut := Rotate.exec Rotate.codeVariant ⟨.err, 2⟩ 0 .init (Rotate.codeEvents [(0, 1)])
      cut.2 = .ok ∧ cut.1.files 0 0 = some 1 ∧ cut.1.offered 0 = [0]) := by decide +kernel
 
+/-- **rotate_tool_rewrite_error_counterexample** (known finding `rotate-tool:data-file-torn-in-place`). The tool
+rewrites a data file in place (`ioutil.WriteFile`: truncate, then write). A write error while the first file is
+rewritten (event 1 – disk full, quota, file size limit) makes the tool stop with an error, correctly – but the
+file now holds a prefix of the new ciphertext: it can be decrypted with no key at all, old or new. -/
+theorem rotate_tool_rewrite_error_counterexample :
+    let cut := Rotate.exec Rotate.codeVariant ⟨.err, 1⟩ 0 .init (Rotate.codeEvents [(0, 1)])
+    cut.2 = .err ∧ cut.1.files 0 0 = none ∧ cut.1.offered 0 = [0] := by decide +kernel
+
+/-- **rotate_save_cut_keeps_old_key.** The save of the new key pair opened up into the key store's own write
+operation (v1: the 16 storage calls of the rotation of a key pair = two key files; v2: the 13 back-end calls of
+`AddKey` + `SetCurrent`) and cut by a crash right after ANY of its calls (`j < 32` covers every call and "no cut"):
+after the restart the key store offers the old key alone or the new key and the old one – never nothing, never
+the new key alone. The new key is offered exactly from the `Rename` that puts the new PRIVATE key file in place
+(v1, call 8) / the `Rename` that installs the ring with the added key (v2, call 6) on; before that the rewritten
+files are lost (known finding `rotate-tool:data-rewritten-before-key-saved`). In particular the v1 state "new
+private key, old public key" (known finding `v1:key-pair-half-written`) already decrypts the rewritten files. -/
+theorem rotate_save_cut_keeps_old_key :
+    ∀ j < 32,
+      ((Rotate.saveCutV1 j).2.2 = some (if 8 ≤ j then [1, 0] else [0])) ∧
+      ((Rotate.saveCutV2 j).2.2 = some (if 6 ≤ j then [1, 0] else [0])) := by decide +kernel
+
 /-- **rotate_tool_order_partial** (the order that makes `rotate_tool_order` true). If the new key pair of
 an id is saved before the first file of that id is rewritten and files are replaced atomically, then for
 every file map (any key ids, any numbers of files), every fault mode and every cut, every data file can be
@@ -343,6 +365,161 @@ theorem rotate_tool_order_partial (clients : List (Nat × Nat)) (v : Rotate.Vari
     (ft : Fault) : (Rotate.exec v ft 0 .init (Rotate.eventsSavedFirst clients)).1.Safe :=
   (Rotate.exec_ready v hv ft _ 0 .init (fun _ => false) Rotate.Inv.init (by intro c hc; cases hc)
     (Rotate.ready_savedFirst clients _)).safe
+
+/-! ## inside `Put` and `Copy`: failures of single system calls
+
+The call-level theorems above treat a back-end / storage call that returns an error as not performed and one
+that returns `nil` as completely performed. For `DirectoryBackend.Put` and `FileStorage.Copy` that is a claim
+about Acra's code; it is proved here over the system-call level models of `Keystore/SysFile.lean`, whose
+parameters are regenerated from the source (`Generated/KeystoreSys.lean`). -/
+
+/-- `DirectoryBackend.Put` makes these error-returning calls in this order, tests the error of each before
+the next; the clean-up closure is deferred after the `OpenFile` (call 3 onwards), guarded by `file != nil`,
+disarmed (`file = nil`) only after the `Close` succeeded; the file is created exclusively. -/
+theorem fact_put_syscalls :
+    KeystoreSys.putCalls =
+      [("b.osPath", "path", true), ("os.MkdirAll", "directory", true), ("os.OpenFile", "fullPath", true),
+       ("file.Write", "data", true), ("file.Sync", "", true), ("file.Close", "", true)] ∧
+    KeystoreSys.putDeferAt = 3 ∧ KeystoreSys.putDisarmAt = 6 ∧ KeystoreSys.putCleanupGuard = "file != nil" ∧
+    KeystoreSys.putOpenFlags = ["O_CREATE", "O_EXCL", "O_WRONLY"] := by decide
+
+/-- The clean-up closure of `Put` closes the file and removes THE PATH THAT `OpenFile` CREATED: `os.Remove`
+receives the same expression as `os.OpenFile`, and that expression is the OS path `osPath(path)`, not the key
+path. -/
+theorem fact_put_cleanup_removes_created_file :
+    KeystoreSys.putCleanupCalls = [("file.Close", ""), ("os.Remove", "fullPath")] ∧
+    Sys.putCode.removeArg = some Sys.putCode.openArg ∧
+    KeystoreSys.putPathDefs.lookup "fullPath" = some "b.osPath(path)" := by decide
+
+/-- the `Put` of the source satisfies what the model's clean-up lemma needs -/
+theorem put_code_sound : Sys.putCode.Sound := ⟨by decide, by decide, by decide⟩
+
+/-- `OpenFile` of the source creates the OS path -/
+theorem put_code_open_path (e : Sys.PutEnv) : e.eval Sys.putCode.openArg = some e.fullPath := by
+  have h : Sys.putCode.openArg = "fullPath" := by decide
+  rw [h]; rfl
+
+/-- **put_error_leaves_no_file.** Whatever fails inside `Put` – path check, `MkdirAll`, the exclusive create,
+`write(2)` after any number of bytes, `fsync`, `close`, also several of them – when `Put` returns an error (the
+process did not crash, the clean-up's `Remove` worked) the directory holds exactly the files it held before:
+no `<ring>.keyring.new` is left, and a file that was there before (the reason for `ErrExist`) is not removed.
+This is what the call-level model assumes of a failing `Put` (`X2.call … .err`: not performed). -/
+theorem put_error_leaves_no_file (e : Sys.PutEnv) (f : Sys.PutFaults) (hf : f.remove = false) (d : Sys.Disk) (data : Bytes)
+    (h : (Sys.put e f d data).2 = .err) : (Sys.put e f d data).1 = d :=
+  Sys.putWith_err_unchanged _ put_code_sound e f hf d data h
+
+/-- **retry_after_put_error_succeeds.** Hence a failed write is not sticky: once the fault is gone the same
+`Put` succeeds and leaves exactly the data (the path being free, as it was for the first attempt). -/
+theorem retry_after_put_error_succeeds (e : Sys.PutEnv) (f : Sys.PutFaults) (hf : f.remove = false) (d : Sys.Disk) (data : Bytes)
+    (hfree : d e.fullPath = none) (h : (Sys.put e f d data).2 = .err) :
+    Sys.put e Sys.PutFaults.none (Sys.put e f d data).1 data = (upd d e.fullPath (some data), .ok) := by
+  rw [put_error_leaves_no_file e f hf d data h]
+  exact Sys.putWith_none _ e d data e.fullPath (put_code_open_path e) hfree
+
+/-- **put_ok_complete.** A `Put` that returns `nil` found nothing at the path and left exactly the data there –
+what the call-level model assumes of a successful `Put`. -/
+theorem put_ok_complete (e : Sys.PutEnv) (f : Sys.PutFaults) (d : Sys.Disk) (data : Bytes) (h : (Sys.put e f d data).2 = .ok) :
+    d e.fullPath = none ∧ (Sys.put e f d data).1 = upd d e.fullPath (some data) := by
+  obtain ⟨p, hp, hn, he⟩ := Sys.putWith_ok _ e f d data h
+  have : p = e.fullPath := by
+    rw [put_code_open_path e] at hp; cases hp; rfl
+  subst this; exact ⟨hn, he⟩
+
+/-- **put_crash_leaves_prefix.** A crash inside `Put` (no clean-up runs) leaves the directory as it was or with
+a prefix of the data at the path – the cases `cb`, `torn`, `ca` of the call-level fault model (known finding
+`v2:leftover-keyring-new`). -/
+theorem put_crash_leaves_prefix (e : Sys.PutEnv) (stage n : Nat) (d : Sys.Disk) (data : Bytes) :
+    Sys.putCrash e stage n d data = d ∨ ∃ m, Sys.putCrash e stage n d data = upd d e.fullPath (some (data.take m)) :=
+  Sys.putCrash_prefix e stage n d data
+
+/-- **put_cleanup_wrong_path_counterexample.** The hypothesis that matters is WHICH path the clean-up removes:
+hand `os.Remove` the key path instead of the OS path (they differ: the key path is relative) and a `write(2)`
+that fails after 3 bytes leaves the torn file behind, `Put` returns an error, and the retry without any fault
+is refused for ever (`O_EXCL`). -/
+theorem put_cleanup_wrong_path_counterexample :
+    let c : Sys.PutCode := { Sys.putCode with removeArg := some "path" }
+    let e : Sys.PutEnv := ⟨"client/alice/storage-sym.keyring.new", "/keys/client/alice/storage-sym.keyring.new"⟩
+    let r := Sys.putWith c e { write := some 3 } (fun _ => none) [1, 2, 3, 4, 5]
+    r.2 = .err ∧ r.1 e.fullPath = some [1, 2, 3] ∧ (Sys.putWith c e Sys.PutFaults.none r.1 [1, 2, 3, 4, 5]).2 = .err := by
+  decide
+
+/-- `FileStorage.Copy` makes these error-returning calls in this order and the error of EVERY one is tested (or
+returned) before `err` is assigned again; the closure that closes the destination is deferred after the
+exclusive create of the destination. -/
+theorem fact_copy_error_flow :
+    KeystoreSys.copyCalls =
+      [("os.Open", "src", true), ("srcFile.Stat", "", true), ("os.OpenFile", "dst", true),
+       ("io.Copy", "dstFile", true), ("dstFile.Sync", "", true)] ∧
+    KeystoreSys.copyDeferAt = 3 ∧ KeystoreSys.copyOpenFlags = ["O_CREATE", "O_EXCL", "O_WRONLY"] := by decide
+
+/-- the error of `io.Copy` is kept -/
+theorem copy_code_kept : Sys.copyCode.copyKept = true := by decide
+
+/-- **copy_ok_complete.** `Copy` returns `nil` only when the destination did not exist and now holds exactly the
+content of the source – for every fault pattern (any subset of its system calls failing, `io.Copy` after any
+number of bytes). This is what the call-level model assumes of `Link`/`Copy` in `applyCall`: success = the
+complete current content is in the history. -/
+theorem copy_ok_complete (f : Sys.CopyFaults) (d : Sys.Disk) (src dst : Sys.Path) (h : (Sys.copy f d src dst).2 = .ok) :
+    ∃ s, d src = some s ∧ d dst = none ∧ (Sys.copy f d src dst).1 = upd d dst (some s) :=
+  Sys.copyWith_ok _ copy_code_kept f d src dst h
+
+/-- **copy_unchecked_counterexample.** The hypothesis "the error of `io.Copy` is tested before `err` is assigned
+again" is needed: let `err = dstFile.Sync()` overwrite it and a copy that breaks off after 2 of 5 bytes is
+reported as a success. -/
+theorem copy_unchecked_counterexample :
+    let c : Sys.CopyCode := { Sys.copyCode with copyKept := false }
+    let d : Sys.Disk := fun p => if p = "k" then some [1, 2, 3, 4, 5] else none
+    let r := Sys.copyWith c { copy := some 2 } d "k" "k.old/1"
+    r.2 = .ok ∧ r.1 "k.old/1" = some [1, 2] := by decide
+
+/-- **copy_error_leaves_prefix.** A `Copy` that returns an error changed nothing, or – when its clean-up does not
+remove the destination – left a prefix of the source under the destination name. -/
+theorem copy_error_leaves_prefix (f : Sys.CopyFaults) (d : Sys.Disk) (src dst : Sys.Path) (h : (Sys.copy f d src dst).2 = .err) :
+    (Sys.copy f d src dst).1 = d ∨
+      (¬ (Sys.copyCode.removesDst = true ∧ f.remove = false) ∧ d dst = none ∧
+        ∃ s n, d src = some s ∧ (Sys.copy f d src dst).1 = upd d dst (some (s.take n))) :=
+  Sys.copyWith_err _ f d src dst h
+
+/-- **rotation_ok_keeps_previous_key.** `WriteKeyFile` over the same file map, with `backupHistoricalKeyFile`
+inlined and `Copy` at system-call level: when the rotation of an existing key file returns `nil`, the key file
+holds the new data AND the history name holds the complete previous content – for every fault at every storage
+call, every fault inside the history copy, with hard links or without. -/
+theorem rotation_ok_keeps_previous_key (e : Sys.WkfEnv) (he : e.Distinct) (f : Sys.WkfFaults) (d : Sys.Disk)
+    (data old : Bytes) (hold : d e.file = some old) (h : (Sys.writeKeyFileWith Sys.copyCode e f d data).2 = .ok) :
+    (Sys.writeKeyFileWith Sys.copyCode e f d data).1 e.file = some data ∧
+    (Sys.writeKeyFileWith Sys.copyCode e f d data).1 e.backup = some old :=
+  Sys.writeKeyFileWith_ok _ copy_code_kept e he f d data old hold h
+
+/-- **rotation_error_keeps_current_key.** And when it returns an error the key file is what it was. -/
+theorem rotation_error_keeps_current_key (e : Sys.WkfEnv) (he : e.Distinct) (f : Sys.WkfFaults) (d : Sys.Disk)
+    (data : Bytes) (h : (Sys.writeKeyFileWith Sys.copyCode e f d data).2 = .err) :
+    (Sys.writeKeyFileWith Sys.copyCode e f d data).1 e.file = d e.file :=
+  Sys.writeKeyFileWith_err _ e he f d data h
+
+/-- **v1_nolink_rotation_atomic.** The call-level form, on a storage without hard links (every history entry is
+made by `Copy`), for every state of the store, every single-file key, every size of the key file and every file
+size limit the copy may hit: a rotation that reports success has the new generation current and the previous
+content complete in the history; one that reports an error left the current key alone. -/
+theorem v1_nolink_rotation_atomic (st : V1) (s : Slot) (len : Nat) (limit : Option Nat) (c0 : Content)
+    (hc0 : st.fs.cur (privFile s) = some c0) :
+    ((Sys.V1.genNoLink Sys.copyCode st s len limit).2.2 = .ok →
+      (Sys.V1.genNoLink Sys.copyCode st s len limit).1.fs.cur (privFile s) = some (.full (st.count s + 1)) ∧
+      ∃ t, (t, c0) ∈ (Sys.V1.genNoLink Sys.copyCode st s len limit).1.fs.old (privFile s)) ∧
+    ((Sys.V1.genNoLink Sys.copyCode st s len limit).2.2 = .err →
+      (Sys.V1.genNoLink Sys.copyCode st s len limit).1.fs.cur (privFile s) = some c0) :=
+  ⟨Sys.V1.genNoLink_ok _ copy_code_kept st s len limit c0 hc0, Sys.V1.genNoLink_err _ st s len limit c0 hc0⟩
+
+/-- **copy_partial_history_counterexample** (known finding `v1:partial-history-copy`, repair offered as
+repo-patches/53). With a clean-up that does not remove the destination, a history copy that hits the limit after
+10 of 76 bytes makes the rotation fail – correctly – but leaves a truncated file under a history name: the key
+that was current still reads, "all keys" of the slot does not any more. With the removing clean-up the failed
+rotation leaves the storage as it was. -/
+theorem copy_partial_history_counterexample :
+    let st := ((V1.init (-1)).run [.gen ss0, .gen ss0]).1
+    let keep := Sys.V1.genNoLink { Sys.copyCode with removesDst := false } st ss0 76 (some 10)
+    let clean := Sys.V1.genNoLink { Sys.copyCode with removesDst := true } st ss0 76 (some 10)
+    keep.2.2 = .err ∧ (keep.1.clear.step (.cur ss0)).2 = .key 2 ∧ (keep.1.clear.step (.all ss0)).2 = .err ∧
+    clean.2.2 = .err ∧ (clean.1.clear.step (.all ss0)).2 = .keys [2, 1] := by decide +kernel
 
 /-! ## non-vacuity -/
 
@@ -384,5 +561,18 @@ example :
     let r := (H2.open st ss0).map fun h0 => H2.hops ⟨.err, 2⟩ ss0 h0 [.destroy 1, .add]
     (r.map fun p => (p.2, p.1.log, (p.1.x.st.rings ss0).map (·.keys.map (·.data)))) =
       some ([.err, .ok], [], some [some 1, some 2, some 3]) := by decide +kernel
+
+/-- a `Put` whose `write(2)` fails after 3 bytes: error returned, directory unchanged, retry succeeds -/
+example :
+    let e : Sys.PutEnv := ⟨"ring.new", "/keys/ring.new"⟩
+    let r := Sys.put e { write := some 3 } (fun _ => none) [1, 2, 3, 4, 5]
+    r.2 = .err ∧ r.1 e.fullPath = none ∧ (Sys.put e Sys.PutFaults.none r.1 [1, 2, 3, 4, 5]).2 = .ok := by decide
+
+/-- the hypotheses of `rotation_ok_keeps_previous_key` are satisfiable, also on the `Copy` path -/
+example :
+    let e : Sys.WkfEnv := ⟨"k", "k123", "k.old/t"⟩
+    let d : Sys.Disk := fun p => if p = "k" then some [1, 2] else none
+    (Sys.writeKeyFileWith Sys.copyCode e { link := true } d [3, 4]).2 = .ok ∧
+    (Sys.writeKeyFileWith Sys.copyCode e { link := true, copy := { copy := some 1 } } d [3, 4]).2 = .err := by decide
 
 end AcraModel.Props.C08
